@@ -39,7 +39,9 @@ RCHILD = str(core.VERIF / "harness/props/c19_resume_child.py")
 OLD = b"OLD"
 CLASSES = ["OSError", "ValueError", "AttributeError", "KeyboardInterrupt"]
 EXC_CODE = {"OSError": 0, "ValueError": 1, "AttributeError": 2, "RuntimeError": 3, "KeyboardInterrupt": 4, None: 0}
-SAMPLE_FAULTS = True
+# forked executions are cheap (~50 ms): the quick tier enumerates every kill / fault point of the secondary scenarios too
+# and only halves their destination states; set True to sample kill points / rotate exception classes on a slow box
+SAMPLE_SECONDARY = os.environ.get("C19_SAMPLE", "") == "1"
 CASE_T = "Z * bool * Z * Z * Z * (list Z * list Z)"
 
 
@@ -168,8 +170,8 @@ def run_server(sc, primary, tier, jobs=None):
     cfg = dict(scenario=sc, classes=CLASSES)
     if jobs is not None:
         cfg["jobs"] = jobs
-    elif tier == "quick" and not primary:
-        cfg.update(kills="sample", faults="sample" if SAMPLE_FAULTS else "all")
+    elif tier == "quick" and not primary and SAMPLE_SECONDARY:
+        cfg.update(kills="sample", faults="sample")
     r = subprocess.run([core.PY, CHILD, json.dumps(cfg)], capture_output=True, text=True, env=core.impl_env(), timeout=1500)
     if r.returncode != 0:
         raise core.CheckError(f"c19_child failed rc={r.returncode} on {sc_name(sc)}: {r.stderr[-1500:]}")
@@ -556,9 +558,9 @@ def run(tier: str, seed: int) -> int:
     rep.coverage.update(
         evaluations=n_eval, distinct_nontrivial=len(nontrivial),
         rule="one evaluation = one forked-process execution of a writer (trace, kill before audited event k, or an exception of one class "
-             "raised by event k) or one interrupted+resumed apply_to; primary scenarios (and all scenarios in the thorough tier): every "
-             "audited event is a kill point and a fault point for each of 4 exception classes; secondary scenarios in quick: sampled "
-             "kill points, OSError at every event + one rotating class; non-trivial = kill/fault/resume runs (distinct (scenario, mode, k, class) / resume job)",
+             "raised by event k) or one interrupted+resumed apply_to; every audited event of every scenario is a kill point "
+             "and a fault point for each of 4 exception classes (quick: secondary scenarios with one of the two destination states each, "
+             "alternating; thorough: both); non-trivial = kill/fault/resume runs (distinct (scenario, mode, k, class) / resume job)",
         samples=samples,
         input_distribution=dict(scenarios=len(scs), scenario_classes=dist,
                                 kill_runs=sum(1 for r in runs if r["mode"] == "kill"),
@@ -571,6 +573,8 @@ def run(tier: str, seed: int) -> int:
         model_impl_disagreements=len(disagreements),
         partial=["zip targets: kill points are the audited events; a death INSIDE ZipFile's own member/directory write is not enumerated; "
                  "faults on zip targets are checked against the property-text oracle only (the nested handler structure is not modelled)",
+                 "KeyboardInterrupt (not an Exception) raised inside __enter__ / __exit__ is not a handled failure: only the destination "
+                 "is checked against the property text, the leftovers against the model (which predicts them from the clauses read)",
                  "durability (fsync) and torn writes inside one os call are outside the model",
                  "kill points are audited os-level events; buffered writes/close are covered by the model only",
                  "a kill between a data-store member write and its md5 side file is not enumerated (resume is per completed record, as the property states)"],
